@@ -1309,7 +1309,7 @@ class Walker:
                     self.assign(e, v, env, stmt)
         elif isinstance(t, (ast.Attribute, ast.Subscript)):
             tgt = self.ev(t, env)
-            if isinstance(t, ast.Attribute) and val == tgt and not isinstance(stmt, ast.AugAssign):
+            if isinstance(t, ast.Attribute) and val == tgt and tgt[1] == ("self",) and not isinstance(stmt, ast.AugAssign):
                 # `saved = self.f ... self.f = saved` with nothing written to f in between: the field keeps its value
                 return
             self.emit("store", stmt, target=tgt, value=val)
